@@ -1,15 +1,17 @@
 /-
 Props/C17.lean — "A verdict does not depend on batch neighbours, batch order or earlier calls".
 
-Single checks: in the model every single check is `runCheck` with a verdict that is a function
-of the artefact alone; the theorems below say that the annotated artefact at position `k` of any
-batch is exactly what checking that artefact alone produces — so position, neighbours and batch
-order are irrelevant by construction. That the REAL checks have this shape (no state leaking
-between artefacts, batches or calls) is the content of the correspondence (harness/corr/c17.py):
-each real check is run on an artefact alone, inside random batches at random positions, and after
-unrelated calls in the same process, and the entries must coincide.
-Joint checks: permutation-equivariance and healthy-addition invariance of BatchGCD (C03); cache
-monotonicity of the discrete-log table (C10, `history_monotone`).
+Single checks: the bookkeeping layer `runCheck` treats artefacts pointwise
+(`runCheckFrom_pointwise`); `single_check_alone_eq_batch` is the corollary for a verdict that is
+ASSUMED to be a function of the artefact alone. That a given REAL check has this shape is proved
+per check elsewhere (RSA single checks: `RsaAll.checkAllRSA_single_independent`; CheckValidECKey /
+CheckWeakCurve: Props/C17Ec.lean; nonce checks: `sig_verdict_independent`) or is the content of the
+correspondence (harness/corr/c17.py: each real check alone / in random batches / after unrelated
+calls). It is FALSE for CheckWeakECPrivateKey (Props/C17Ec.lean).
+Joint checks: permutation-equivariance and healthy-addition invariance of BatchGCD (C03) and of
+the boolean verdicts of CheckECKeySmallDifference (Props/C17Ec.lean; its recorded evidence is
+order-dependent); the guaranteed part of the discrete-log search survives any history (C10,
+`history_monotone`).
 -/
 import ParanoidModel.Props.C03
 import ParanoidModel.Props.C16
@@ -48,9 +50,18 @@ theorem runCheckFrom_pointwise (ver : String) (c : CheckSpec) (v : Nat → Verdi
           rw [show i + (k + 1) = i + 1 + k by omega]
           exact h1
 
-/-- **Single checks judge artefacts individually.** If the verdict is a function `f` of the
-artefact alone, then in ANY batch, at ANY position, the annotated artefact equals the result of
-checking it alone. -/
+/-- Bookkeeping half of "single checks judge artefacts individually".  IF the verdict handed to
+`runCheck` is a function `f` of the artefact alone (this is the HYPOTHESIS of the statement, built
+into the verdict argument — nothing here says that a real check has this shape), then in any batch,
+at any position, the annotated artefact equals the result of `runCheck` on the singleton batch: the
+`SetTestResult` / `AttachFactors` / `AttachInfo` layer does not leak between artefacts.  That the
+verdict of a particular check IS a function of the artefact alone is a separate statement per check:
+proved end to end for the fifteen RSA single checks under equal singleton state and equal per-key
+oracle answers (`RsaAll.checkAllRSA_single_independent`), for CheckValidECKey and CheckWeakCurve
+(`C17Ec.checkAllEC_individual_entries_local`), for the ECDSA nonce checks as a function of (curve,
+own issuer key, guess list of the curve group) (`sig_verdict_independent`); it is FALSE for
+CheckWeakECPrivateKey, whose table size depends on the number of keys of the batch
+(`C17Ec.weakKey_verdict_depends_on_batch`). -/
 theorem single_check_alone_eq_batch (ver : String) (c : CheckSpec) (f : Artifact → Verdict)
     (arts arts' : List Artifact) (w : Bool)
     (h : runCheck ver c (fun i => match arts[i]? with | some a => f a | none => ⟨false, none, none⟩) arts
@@ -91,10 +102,20 @@ section ec
 open Paranoid.Ec Paranoid.Bsgs WeierstrassCurve
 variable (c : Curve) [Fact (Nat.Prime c.p)]
 
-/-- "anything flagged in a fresh process is also flagged after arbitrary earlier work": after ANY
-sequence of earlier BatchDL / ExtendedBatchDL / BatchDLOfDifferences calls on the same curve
-object, `BatchDL` still does not raise, the table invariant holds, and every reduced point
-`x • G` with `x` below the bound is found. -/
+/-- The part of "anything flagged in a fresh process is also flagged after arbitrary earlier work"
+that is proved for `BatchDL` — and ONLY this: after any sequence of earlier BatchDL /
+ExtendedBatchDL / BatchDLOfDifferences calls on the same curve object (none of which raised), a
+`BatchDL` call on on-curve points does not raise, leaves a reachable table, and every REDUCED
+point `x • G` with `0 ≤ x < n` (the range the function guarantees) gets SOME log `v` with
+`v • G = P`.  NOT stated: (i) that `v = x` (`C10.batchDL_complete` gives it under a no-wrap
+condition); (ii) anything about logs outside `[0, n)` that a fresh call happens to find — for an
+arbitrary split value `m` such a log CAN be lost after earlier work
+(`C10.history_superset_fails_for_some_split`; with the real `m = int(sqrt(ts))` no loss was
+observed, search only); (iii) ExtendedBatchDL / BatchDLOfDifferences and the two checks built on
+them — for those the same "guaranteed part survives any history" statements are
+`C10.extended_complete` / `C10.diff_complete` (any `StateOK` state, `C10.history_stateOK`) and, at
+check level, `C17Ec.weakKey_guaranteed_any_context`, `C17Ec.smallDiff_guaranteed_any_context`;
+(iv) the converse: a later call can flag MORE (`C17Ec.smallDiff_verdict_depends_on_history`). -/
 theorem dl_history_monotone (hv : ValidCurve c) (ops : List Bsgs.Op) (st : EcState)
     (h : Bsgs.runOps c (StateG.init listImpl) ops = .ok st) (points : List Pt)
     (hpts : ∀ P ∈ points, onCurve c P = true) (n ts m : Nat) (hts : 1 ≤ ts)
